@@ -180,6 +180,69 @@ CHECKS = {
         "result zips / exported files. Not covered: short options, triples of "
         "options.",
         "DESIGN.md 4/C18"),
+    "C10": (
+        "E1-enum",
+        "exhaustive enumeration of pose sequences on exact grids on the real "
+        "id_pairs_from_delta against predicate oracles",
+        "All step sequences of 2..7 (thorough 8) poses with step lengths "
+        "{0,1,2,3} and a second binary-fraction grid with delta < 1; all "
+        "rotation-step sequences of 2..5 (6) poses over {0,pi/8,pi/4,pi/2,pi "
+        "about z, pi/2 about x}; N 2..12 for frames; x consecutive/all-pairs "
+        "x on-grid (exact hits), off-grid and unsatisfiable deltas x "
+        "tolerances: index range, exact frame sets/chains, chain property, "
+        "minimality of j, start bound, maximality, closest-within-tolerance, "
+        "each eligible i once, exact angle band, empty <=> FilterException.",
+        "Trusted: predicates in mc/checks/c10.py; three-valued comparisons "
+        "within 1e-9 for accumulated angles. Not covered: longer sequences, "
+        "off-grid geometry.",
+        "DESIGN.md 4/C10"),
+    "C11": (
+        "E1-enum",
+        "exhaustive enumeration of small tagged trajectories on the real "
+        "downsample / motion_filter / crop / split / merge",
+        "downsample: all (count<=14, N<=count+2); motion filter: all sequences "
+        "of <=4 (5) steps over 3 lengths x 3 rotations x 4x4 thresholds incl. "
+        "0 and exact hits; crop: all (start,end) from stamps/None/between/"
+        "outside/start>end; splits (time, distance, speed): all gap sequences "
+        "x thresholds incl. exact hits (partition, cuts only at exceeding "
+        "steps); merge: all assignments of 4 (5) time slots to 1..3 "
+        "trajectories incl. equal stamps. Every pose carries a unique "
+        "position/orientation/stamp so 'travel together' is decided per pose.",
+        "Trusted: predicates in mc/checks/c11.py. Not covered: > 14 poses, "
+        "off-grid geometry.",
+        "DESIGN.md 4/C11"),
+    "C12": (
+        "E1-enum",
+        "exhaustive enumeration of error arrays, of unit-change paths (state "
+        "machine over 10 units) and of ape()/rpe() assembly lattices",
+        "Statistics of every array of length <=5 (6) over a 5-magnitude "
+        "alphabet vs fsum definitions and the stated inequalities; every "
+        "unit-change path of length <=3 over 10 units from each relation's "
+        "unit: exact factors, path independence, refusals leave values+unit "
+        "bitwise untouched, statistics/title/label re-checked after every "
+        "step; ape()/rpe() results over relation x unit x delta unit x delta "
+        "x all_pairs x pairs_from_reference x timed: one companion entry per "
+        "value referring to the right pose, stored trajectories = processed "
+        "ones ([0]+end poses for RPE, zero-distance pairs skipped "
+        "consistently), values = definition x factor.",
+        "Trusted: reference definitions in mc/checks/c12.py; pair selection "
+        "taken from evo's id_pairs_from_delta (decided by C10).",
+        "DESIGN.md 4/C12"),
+    "C14": (
+        "E1-enum",
+        "exhaustive enumeration of planes x pose alphabets x constructor x "
+        "every subset of views read beforehand on the real project()",
+        "372 planar headings per plane (1-degree grid + knife-edge neighbours "
+        "of 0, +-90, 180), all 4096 Euler triples on a pi/8 grid (gimbal "
+        "lock), 107 hard rotations x hard positions: zeroed out-of-plane "
+        "coordinate, exact in-plane coordinates, valid pose, pure rotation "
+        "about the normal, views agree, stamps/count/order unchanged, planar "
+        "poses unchanged, second projection refused without effect. The xz "
+        "heading defect is a listed known finding (K1), matched only on its "
+        "exact mapping.",
+        "Trusted: numpy rotation oracle. Not covered: rotations outside the "
+        "alphabets.",
+        "DESIGN.md 4/C14"),
 }
 
 NOT_YET = {
